@@ -465,8 +465,9 @@ Fixpoint ws_filter_gen {A} (fixed : bool) (flag : bool) (ts : list (tok * A)) : 
     end
   end.
 
-(* Which code the model describes.  true once fixes/D6-comment-resets-trim.patch is applied. *)
-Definition comment_flag_fixed : bool := false.
+(* Which code the model describes: true = lexer.rs with fixes/D6-comment-resets-trim.patch applied
+   (the comment arm reads `remove_leading_ws = end_ws;`), false = the pinned code. *)
+Definition comment_flag_fixed : bool := true.
 
 Definition ws_filter (ts : list tok) : list tok :=
   map fst (ws_filter_gen comment_flag_fixed false (map (fun t => (t, tt)) ts)).
